@@ -59,7 +59,11 @@ func initLibSpecs() {
 		return ite(app("str.prefixof", p, x), app("str.substr", x, app("str.len", p), app("-", app("str.len", x), app("str.len", p))), x)
 	})
 	L["strings.ToLower"] = pureStr("strings.ToLower = uninterpreted str_lower", func(a []Val) string { return app("str_lower", a[0].Terms[0]) })
-	L["strings.Repeat"] = pureStr("strings.Repeat = uninterpreted str_repeat", func(a []Val) string { return app("str_repeat", a[0].Terms[0], a[1].Terms[0]) })
+	L["strings.Repeat"] = &libSpec{fn: func(s *State, c *ssa.CallCommon, args []Val, where string) Val {
+		s.trust("strings.Repeat = uninterpreted str_repeat; panics on a negative count (obligation)")
+		s.oblige("safety", "repeat-count", []string{"C19"}, app("<=", "0", args[1].Terms[0]), where, "strings.Repeat panics on a negative count")
+		return Val{T: c.Signature().Results().At(0).Type(), Terms: []string{app("str_repeat", args[0].Terms[0], args[1].Terms[0])}}
+	}}
 	L["strings.ReplaceAll"] = pureStr("strings.ReplaceAll = str.replace_all", func(a []Val) string {
 		return app("str.replace_all", a[0].Terms[0], a[1].Terms[0], a[2].Terms[0])
 	})
